@@ -77,3 +77,6 @@ Print Assumptions C07_len_byte_exact.
 Print Assumptions C07_no_alias.
 Print Assumptions C07_spec_sign.
 Print Assumptions C07_spec_verify.
+(* T2: lib.rs overrides no provided trait method: try_sign / try_hash_sign go through the guarded _with_rng variants *)
+Require F204.Proofs.SourcePins.
+Check F204.Proofs.SourcePins.lib_impl_methods_pinned.
